@@ -164,7 +164,8 @@ uint8_t hll_union_alloc<A>::get_lg_config_k() const {
 
 template<typename A>
 void hll_union_alloc<A>::reset() {
-  gadget_.reset();
+  // the gadget may have been replaced by one with a smaller lg_k: a reset union starts again at lg_max_k
+  gadget_ = hll_sketch_alloc<A>(lg_max_k_, target_hll_type::HLL_8, false, gadget_.sketch_impl->getAllocator());
 }
 
 template<typename A>
